@@ -196,7 +196,14 @@ impl EcmaRegexValidator {
     self.u_flag = u_flag && self.ecma_version >= EcmaVersion::Es2015;
     self.n_flag = u_flag && self.ecma_version >= EcmaVersion::Es2018;
     //self.reset(source, 0, source.len(), u_flag);
-    self.reset(source, 0, source.chars().count(), u_flag);
+    // the reader indexes code points with the u flag and UTF-16 code units
+    // without it
+    let end = if u_flag {
+      source.chars().count()
+    } else {
+      source.encode_utf16().count()
+    };
+    self.reset(source, 0, end, u_flag);
     self.consume_pattern()?;
 
     if !self.n_flag
